@@ -34,6 +34,98 @@ func loopBlocks(r *Renderer, header *ssa.BasicBlock) []*ssa.BasicBlock {
 	return out
 }
 
+// observabilitySink: the call hands its arguments to logging or metrics, which no consensus value depends on.
+func observabilitySink(c *ssa.CallCommon) bool {
+	if c.IsInvoke() {
+		if nt := namedOf(c.Value.Type()); nt != nil && nt.Obj().Pkg() != nil {
+			path := nt.Obj().Pkg().Path()
+			return path == "cosmossdk.io/log" && nt.Obj().Name() == "Logger"
+		}
+		return false
+	}
+	f := calleeFunc(c)
+	if f == nil || f.Pkg() == nil {
+		return false
+	}
+	switch f.Pkg().Path() {
+	case "github.com/cosmos/cosmos-sdk/telemetry", "github.com/hashicorp/go-metrics", "github.com/armon/go-metrics", "github.com/prometheus/client_golang/prometheus":
+		return true
+	}
+	return false
+}
+
+// onlyObserved: every use of v (followed through time arithmetic, conversions and the packaging of variadic
+// arguments) is an argument of a logging / metrics call.
+func onlyObserved(v ssa.Value) bool {
+	seen := map[ssa.Value]bool{}
+	var ok func(v ssa.Value) bool
+	ok = func(v ssa.Value) bool {
+		if seen[v] {
+			return true
+		}
+		seen[v] = true
+		refs := v.Referrers()
+		if refs == nil {
+			return false
+		}
+		for _, in := range *refs {
+			switch x := in.(type) {
+			case *ssa.DebugRef:
+			case ssa.CallInstruction:
+				cc := x.Common()
+				if observabilitySink(cc) {
+					continue
+				}
+				if f := calleeFunc(cc); f != nil && f.Pkg() != nil && f.Pkg().Path() == "time" {
+					if val, isV := in.(ssa.Value); isV && ok(val) {
+						continue
+					}
+				}
+				return false
+			case *ssa.MakeInterface:
+				if !ok(x) {
+					return false
+				}
+			case *ssa.Convert:
+				if !ok(x) {
+					return false
+				}
+			case *ssa.ChangeType:
+				if !ok(x) {
+					return false
+				}
+			case *ssa.BinOp:
+				if !ok(x) {
+					return false
+				}
+			case *ssa.Store:
+				// element of the array behind a variadic argument list
+				ia, isIdx := x.Addr.(*ssa.IndexAddr)
+				if !isIdx || x.Val != v {
+					return false
+				}
+				arr, isAlloc := ia.X.(*ssa.Alloc)
+				if !isAlloc {
+					return false
+				}
+				for _, r := range *arr.Referrers() {
+					if sl, isSl := r.(*ssa.Slice); isSl && !ok(sl) {
+						return false
+					}
+				}
+			case *ssa.Slice:
+				if !ok(x) {
+					return false
+				}
+			default:
+				return false
+			}
+		}
+		return true
+	}
+	return ok(v)
+}
+
 func propC07(c *Check) {
 	p := c.p
 	c.Rule("R1", "sources: from tx, block-hook, ante and genesis entry points no repository function reaches wall-clock time, randomness, environment, goroutines, channels or select (resolved callees; positive control: they ARE found from the proposal context)")
@@ -55,6 +147,10 @@ func propC07(c *Check) {
 		var hits []string
 		for _, e := range cg.Ext[f] {
 			if isNondet(e.Name) {
+				// a clock reading that only ever reaches the logger / the metrics registry decides nothing
+				if v, ok := e.Site.(ssa.Value); ok && strings.HasPrefix(e.Name, "time.") && onlyObserved(v) {
+					continue
+				}
 				hits = append(hits, e.Name+" @ "+p.InstrPos(e.Site))
 			}
 		}
